@@ -97,6 +97,15 @@ def gen_scenarios(seed_, n):
                 steps.append(env("hb", g, "q%d" % k))
             steps.append(env("hb", g, "q3"))
             steps.append(env("hb", r.choice(A["keys"] if not changed else keysB), "q20"))
+        # concurrent writers at the cap: the table is filled to just below it one call at a time, then several new
+        # peers' heartbeats are verified at once (receive loop + own-heartbeat goroutine in the node), then one more
+        if r.random() < 0.5 and (A["keys"] if not changed else keysB):
+            g = r.choice(A["keys"] if not changed else keysB)
+            if any(st["ev"] == "GSetUpdate" for st in steps):
+                for k in range(1, r.choice([12, 13, 14, 15]) + 1):
+                    steps.append(env("hb", g, "b%d" % k))
+                steps.append({"ev": "HeartbeatBurst", "a": {"g": g, "peers": ["c%d" % k for k in range(1, r.choice([2, 3, 5]) + 1)] + ["b1"]}})
+                steps.append(env("hb", g, "b99"))
         # one member signs heartbeats that name another member in the body, from many peers: the other member's
         # share of the table must stay untouched and its own heartbeat must still be taken
         if r.random() < 0.3 and len(A["keys"]) >= 2 and not changed:
@@ -146,6 +155,9 @@ def signature(rej, line):
         return "gossip-stall/%s" % (fns[0].split("/")[-1] if fns else "verifier-never-returned")
     if "panic" in line.get("s", {}):
         return "gossip-panic/%s" % line["ev"]
+    if line.get("ev") == "HeartbeatBurst":
+        n = max([len(v) for v in (line.get("s", {}).get("hb") or {}).values()] or [0])
+        return "gossip/HeartbeatBurst/%s" % ("more-than-15-nodes-for-one-guardian" if n > 15 else "table-not-a-sequential-outcome")
     e = line.get("a", {}).get("e", {})
     cls = "valid" if (e.get("signer") == e.get("claimed") and e.get("dom") == e.get("kind") and e.get("same") and e.get("parses")) else "mutated"
     return "gossip/%s/%s/%s" % (line.get("ev"), cls, line.get("s", {}).get("verdict"))
